@@ -76,19 +76,28 @@ class Obj:
                 a = self.o.next_token_weights(ch) if self.kind == "earley" else self.o.next_token_weights(ch, p)
                 return ans_digest(a, self.zero)
             if q == "call":
-                return repr(self.o(p))
+                return vrepr(self.o(p))
         else:
             if q in ("chart", "pnext", "lm_pnext"):
                 return ans_digest(self.o.p_next(p), 0)
             if q == "lmcall":
-                return repr(self.o(p + (EOS,)))
+                return vrepr(self.o(p + (EOS,)))
         raise MachineryError(f"unsupported query {q} for role {self.role}")
 
 
 def vrepr(v):
-    """Exact values print exactly; floats (only produced where the code path forces them) to 9 digits."""
+    """A canonical print of an answer VALUE: exact numbers by value (0, Fraction(0, 1) and 0.0 are the same answer),
+    floats (only produced where the code path forces them) to 9 digits, semiring elements by their score."""
+    from fractions import Fraction
+    if isinstance(v, bool):
+        return repr(v)
+    if isinstance(v, (int, Fraction)):
+        return str(Fraction(v))
     if isinstance(v, float) or hasattr(v, "dtype"):
-        return f"{float(v):.9g}"
+        f = float(v)
+        return str(Fraction(f)) if f == int(f) and abs(f) < 1e9 else f"{f:.9g}"
+    if hasattr(v, "score"):
+        return type(v).__name__ + ":" + (vrepr(v.score) if not isinstance(v.score, tuple) else repr(tuple(vrepr(x) for x in v.score)))
     return repr(v)
 
 
@@ -164,7 +173,8 @@ def step_event(ob, q, p, hid, G, srn):
     e["content"] = bool(content)
     e["frozen"] = all(col_digest(kind, c, ob.zero) == before_dig[id(c)] for _, _, c in live)
     if ans is not None:
-        e["same"] = ans == freshob.apply(q, p)
+        # a pristine object that has answered nothing else (the one above has just been asked for every cached prefix)
+        e["same"] = ans == Obj(ob.name, ob.kind, ob.role, ob.make, ob.zero).apply(q, p)
         e["ans"] = ans[:200]
     return e
 
@@ -204,6 +214,11 @@ def walk(report, rng, tier):
                 g.add(fam.weights_for(R)[0], g.S, "a", "b")
                 g.add(fam.weights_for(R)[1], g.S, "b")
             grammars.append((srn, g))
+    # grammars in which some tokens are dead at every context (queries on non-viable extensions happen in the walk)
+    for srn in ("Sat3", "Bool", "Rat"):
+        R = gops.SR[srn]
+        w = fam.weights_for(R)[0]
+        grammars.append((srn, fam.build_cfg(R, [(w, "S", ("a", "S", "b")), (w, "S", ("a", "b"))])))
     nedges = 0
     for kind in ("earley", "cky"):
         nodes, edges, init = graph(report, kind, maxlen)
@@ -303,7 +318,7 @@ def positive_histories(rng, tier):
         name, kind, role, make, zero = facs[gi % len(facs)]
         try:
             probe = make()
-            fresh = {s: repr(make()(s)) for s in strs}
+            fresh = {s: vrepr(make()(s)) for s in strs}
             good = [s for s in strs if probe(s) != zero]
         except Exception:  # noqa: BLE001
             continue
@@ -323,7 +338,7 @@ def positive_histories(rng, tier):
                      "call": {"fn": "history", "args": {"sr": srn, "G": G, "obj": name,
                                                         "history": [["call", list(s1)], ["call", list(s2)]]}}}
                 try:
-                    e["same"] = repr(ob.o(s2)) == fresh[s2]
+                    e["same"] = vrepr(ob.o(s2)) == fresh[s2]
                 except Exception as ex:  # noqa: BLE001
                     e["exc"] = type(ex).__name__
                 e["after"] = ob.keys()
